@@ -359,6 +359,16 @@ def rcontract(rng, ins: Sequence[str], outs: Sequence[str], style: str = "int", 
                     g += bounds(rng, o, style=style)
     elif ins and rng.random() < 0.3:
         g += rlist(rng, ins, 1, 2, style)
+    if rng.random() < 0.8:
+        # make the contract satisfiable: every constant is raised, where necessary, so that a hidden small-integer
+        # point satisfies all assumptions and guarantees (20 % of the contracts stay as drawn: the unsatisfiable
+        # ones exercise the ValueError paths)
+        pt = {v: float(rng.randint(-3, 3)) for v in ins + outs}
+        for t in a + g:
+            val = sum(c * pt.get(v, 0.0) for v, c in t["c"].items())
+            if val > t["k"]:
+                t["k"] = val + float(rng.choice([0, 0, 1, 2])) if style in ("int", "unit") else \
+                    val + rng.choice([0.0, 0.5, 1.0, 2.25])
     return {"in": ins, "out": outs, "a": a, "g": g}
 
 
